@@ -1,6 +1,6 @@
 (** C14 — comparison of implementation observations with the model (run by the check),
     finding-class predicates, diagnostics. *)
-From GV Require Export Lpg.Model.
+From GV Require Export Lpg.Model Lpg.Classes.
 Open Scope Z_scope.
 
 (** * canonical forms: the harness sorts what comes out of hash maps; so does the runner *)
@@ -64,33 +64,55 @@ Definition ret_eqb (a b : ret) : bool :=
   | _, _ => false
   end.
 
-(** * observations *)
+(** * observations
+
+    Long id lists are compared through their length and a polynomial hash of the canonical
+    (sorted) list, computed by the same function on both sides; short lists are compared
+    element by element.  (Coq parses numerals slowly; a 600-operation history observed 75 times
+    would otherwise carry half a million of them.) *)
+Definition hmod : Z := 2305843009213693951.    (* 2^61 - 1 *)
+Definition hstep (h x : Z) : Z := (h * 1000003 + x + 1) mod hmod.
+Definition zhash (l : list Z) : Z := fold_left hstep l 0.
+Definition phash (l : list (Z * Z)) : Z := fold_left (fun h p => hstep (hstep h (fst p)) (snd p)) l 0.
+Definition qhash (l : list (Z * Z * Z * Z)) : Z :=
+  fold_left (fun h q => match q with (a, b, c, d) => hstep (hstep (hstep (hstep h a) b) c) d end) l 0.
+
+Inductive zs := ZL (l : list Z) | ZH (n h : Z).
+Inductive ps := PL (l : list (Z * Z)) | PH (n h : Z).
+Inductive qs := QL (l : list (Z * Z * Z * Z)) | QH (n h : Z).
+Definition zs_eqb (m : list Z) (o : zs) : bool :=
+  match o with ZL l => zlist_eqb m l | ZH n h => (Z.of_nat (length m) =? n) && (zhash m =? h) end.
+Definition ps_eqb (m : list (Z * Z)) (o : ps) : bool :=
+  match o with PL l => plist_eqb m l | PH n h => (Z.of_nat (length m) =? n) && (phash m =? h) end.
+Definition qs_eqb (m : list (Z * Z * Z * Z)) (o : qs) : bool :=
+  match o with QL l => list_eqb quad_eqb m l | QH n h => (Z.of_nat (length m) =? n) && (qhash m =? h) end.
+
 Inductive obs :=
-| ONodeIds (ids : list Z)                                   (* node_ids() *)
+| ONodeIds (ids : zs)                                        (* node_ids() *)
 | OCounts (nodes edges : Z)                                  (* node_count(), edge_count() *)
-| OAllNodes (ids : list Z)                                   (* ids of all_nodes(), sorted *)
+| OAllNodes (ids : zs)                                       (* ids of all_nodes(), sorted *)
 | OGetNode (n : Z) (r : option (list Z * list (Z * value)))  (* labels sorted, properties sorted by key *)
-| OByLabel (l : Z) (ids : list Z)                            (* nodes_by_label *)
-| OAllEdges (es : list (Z * Z * Z * Z))                      (* (id, src, dst, type) sorted by id *)
+| OByLabel (l : Z) (ids : zs)                                (* nodes_by_label *)
+| OAllEdges (es : qs)                                        (* (id, src, dst, type) sorted by id *)
 | OGetEdge (e : Z) (r : option (Z * Z * Z * list (Z * value)))
-| OEdgesFrom (n : Z) (d : direction) (es : list (Z * Z))     (* sorted *)
-| OEdgesTo (n : Z) (es : list (Z * Z))                       (* sorted *)
-| ONeighbors (n : Z) (d : direction) (ns : list Z)           (* sorted *)
+| OEdgesFrom (n : Z) (d : direction) (es : ps)               (* sorted *)
+| OEdgesTo (n : Z) (es : ps)                                 (* sorted *)
+| ONeighbors (n : Z) (d : direction) (ns : zs)               (* sorted *)
 | ODegrees (n : Z) (outd ind : Z)
-| OFind (key : Z) (v : value) (ids : list Z)                 (* find_nodes_by_property, sorted *)
-| OFindRange (key : Z) (lo hi : option value) (li hi_i : bool) (ids : list Z)
-| OMight (node : bool) (key : Z) (o : cmpop) (v : value) (b : bool)
+| OFind (key : Z) (v : value) (ids : zs)                     (* find_nodes_by_property, sorted *)
+| OFindRange (key : Z) (lo hi : option value) (li hi_i : bool) (ids : zs)
+| OMight (node : bool) (key : Z) (v : value) (bs : list bool)   (* might_match for Eq Ne Lt Le Gt Ge *)
 | OZone (key : Z) (z : option (option value * option value * Z * Z))   (* node_property_zone_map *)
 | OStats (nodes edges : Z) (labels etypes : list (Z * Z))    (* statistics(), maps sorted by name *)
 | OValidate (errs : list (Z * Z))                            (* GrafeoDB::validate errors, sorted *)
 | OHasIndex (key : Z) (b : bool)
 | OCatalog (labels etypes : Z)                               (* label_count(), edge_type_count() *)
-| OShadow (forward : bool) (n : Z) (es : list (Z * Z))       (* ChunkedAdjacency::edges_from, exact order *)
+| OShadow (forward : bool) (n : Z) (es : ps)                 (* ChunkedAdjacency::edges_from, exact order *)
 | OShadowMem (forward : bool) (hot cold nlists : Z).         (* memory_stats() *)
 
 Definition get_node_eqb (m : option (list Z * list (Z * value))) (i : option (list Z * list (Z * value))) : bool :=
   match m, i with
-  | Some (ls, ps), Some (ls', ps') => zlist_eqb (zsort ls) ls' && props_eqb ps ps'
+  | Some (ls, ps), Some (ls', ps') => zlist_eqb (zsortf ls) ls' && props_eqb ps ps'
   | None, None => true
   | _, _ => false
   end.
@@ -108,24 +130,25 @@ Definition zone_obs_eqb (m : option zone) (i : option (option value * option val
   | _, _ => false
   end.
 Definition has_index (s : state) (key : Z) : bool := match zget (pidx s) key with Some _ => true | None => false end.
+Definition all_ops : list cmpop := [OpEq; OpNe; OpLt; OpLe; OpGt; OpGe].
 
 Definition chk_obs (s : state) (o : obs) : bool :=
   match o with
-  | ONodeIds ids => zlist_eqb (node_ids s) ids
+  | ONodeIds ids => zs_eqb (node_ids s) ids
   | OCounts n e => (node_count s =? n) && (edge_count s =? e)
-  | OAllNodes ids => zlist_eqb (zsort (all_nodes s)) ids
+  | OAllNodes ids => zs_eqb (zsortf (all_nodes s)) ids
   | OGetNode n r => get_node_eqb (get_node s n) r
-  | OByLabel l ids => zlist_eqb (zsort (nodes_by_label s l)) ids
-  | OAllEdges es => list_eqb quad_eqb (all_edges s) es      (* the model's edge list is in id order *)
+  | OByLabel l ids => zs_eqb (zsortf (nodes_by_label s l)) ids
+  | OAllEdges es => qs_eqb (all_edges s) es               (* the model's edge list is in id order *)
   | OGetEdge e r => get_edge_eqb (get_edge s e) r
-  | OEdgesFrom n d es => plist_eqb (psort (edges_from s n d)) es
-  | OEdgesTo n es => plist_eqb (psort (edges_to s n)) es
-  | ONeighbors n d ns => zlist_eqb (zsort (neighbors s n d)) ns
+  | OEdgesFrom n d es => ps_eqb (psort (edges_from s n d)) es
+  | OEdgesTo n es => ps_eqb (psort (edges_to s n)) es
+  | ONeighbors n d ns => zs_eqb (zsortf (neighbors s n d)) ns
   | ODegrees n a b => (out_degree s n =? a) && (in_degree s n =? b)
-  | OFind k v ids => zlist_eqb (zsort (find_by_prop s k v)) ids
-  | OFindRange k lo hi li hi_i ids => zlist_eqb (zsort (find_in_range s k lo hi li hi_i)) ids
-  | OMight true k o v b => Bool.eqb (node_might_match s k o v) b
-  | OMight false k o v b => Bool.eqb (edge_might_match s k o v) b
+  | OFind k v ids => zs_eqb (zsortf (find_by_prop s k v)) ids
+  | OFindRange k lo hi li hi_i ids => zs_eqb (zsortf (find_in_range s k lo hi li hi_i)) ids
+  | OMight true k v bs => list_eqb Bool.eqb (map (fun o => node_might_match s k o v) all_ops) bs
+  | OMight false k v bs => list_eqb Bool.eqb (map (fun o => edge_might_match s k o v) all_ops) bs
   | OZone k z => zone_obs_eqb (node_zone s k) z
   | OStats n e ls ts =>
       (s_nodes (stats_cur s) =? n) && (s_edges (stats_cur s) =? e)
@@ -133,8 +156,8 @@ Definition chk_obs (s : state) (o : obs) : bool :=
   | OValidate errs => plist_eqb (psort (validate s)) errs
   | OHasIndex k b => Bool.eqb (has_index s k) b
   | OCatalog l t => (Z.of_nat (length (lab_names s)) =? l) && (Z.of_nat (length (ety_names s)) =? t)
-  | OShadow true n es => plist_eqb (adj_edges_from (fwd s) n) es
-  | OShadow false n es => plist_eqb (adj_edges_from (bwd s) n) es
+  | OShadow true n es => ps_eqb (adj_edges_from (fwd s) n) es
+  | OShadow false n es => ps_eqb (adj_edges_from (bwd s) n) es
   | OShadowMem true h c nl => (adj_hot_entries (fwd s) =? h) && (adj_cold_entries (fwd s) =? c) && (Z.of_nat (length (fwd s)) =? nl)
   | OShadowMem false h c nl => (adj_hot_entries (bwd s) =? h) && (adj_cold_entries (bwd s) =? c) && (Z.of_nat (length (bwd s)) =? nl)
   end.
@@ -181,72 +204,21 @@ Definition chk_constants (chunk delta hot_kept : Z) : bool :=
 Definition ops_of (t : list item) : list op :=
   filter_map (fun i => match i with E o _ => Some o | O _ => None end) t.
 
-(** C14-K2: the history deletes a node that still has live incident edges without detaching them,
-    or creates an edge whose endpoint is not a live node *)
-Definition has_live_incident (s : state) (n : Z) : bool :=
-  existsb (fun p => (e_src (snd p) =? n) || (e_dst (snd p) =? n)) (live_edges s).
-Definition op_dangles (s : state) (o : op) : bool :=
-  match o with
-  | DeleteNode n => node_live s n && has_live_incident s n
-  | CreateEdge a b _ => negb (node_live s a && node_live s b)
-  | _ => false
-  end.
-Fixpoint hist_dangles (s : state) (ops : list op) : bool :=
-  match ops with
-  | [] => false
-  | o :: r => op_dangles s o || hist_dangles (fst (step s o)) r
-  end.
-Definition no_dangling (s : state) : bool :=
-  forallb (fun p => node_live s (e_src (snd p)) && node_live s (e_dst (snd p))) (live_edges s).
 (** the oracle failure "a deleted/non-existent node shows up as an endpoint or neighbour" is the
     listed finding when the history is in the class and the model predicts a dangling edge *)
 Definition k_dangling (backward : bool) (ops : list op) : bool :=
   hist_dangles (init backward) ops && negb (no_dangling (run (init backward) ops)).
 
-(** C14-K6: the history sets a node property on an id that is not a live node *)
-Definition op_sets_dead (s : state) (o : op) : bool :=
-  match o with
-  | SetNodeProp n _ _ => negb (node_live s n)
-  | _ => false
-  end.
-Fixpoint hist_sets_dead (s : state) (ops : list op) : bool :=
-  match ops with
-  | [] => false
-  | o :: r => op_sets_dead s o || hist_sets_dead (fst (step s o)) r
-  end.
-
 (** C14-K3 / K6: index lookup differs from the scan *)
 Definition k_index_float (backward : bool) (ops : list op) (key : Z) (q : value) : bool :=
   let s := run (init backward) ops in
   has_float_special q && has_index s key
-  && negb (zlist_eqb (zsort (find_by_prop s key q)) (zsort (scan_by_prop s key q))).
+  && negb (zlist_eqb (zsortf (find_by_prop s key q)) (zsortf (scan_by_prop s key q))).
 Definition k_index_dead (backward : bool) (ops : list op) (key : Z) (q : value) : bool :=
   let s := run (init backward) ops in
   hist_sets_dead (init backward) ops && has_index s key
-  && negb (zlist_eqb (zsort (find_by_prop s key q)) (zsort (scan_by_prop s key q))).
+  && negb (zlist_eqb (zsortf (find_by_prop s key q)) (zsortf (scan_by_prop s key q))).
 
-(** C14-K4 / K5: zone-map pruning claims "no match" although a stored value matches *)
-Definition is_big_int (v : value) : bool :=
-  match v with VInt i => 9007199254740992 <=? Z.abs i | _ => false end.       (* 2^53 *)
-Definition is_float (v : value) : bool := match v with VFloat _ => true | _ => false end.
-Definition opt_list {A} (o : option A) : list A := match o with Some a => [a] | None => [] end.
-Definition col_values (c : column) : list value :=
-  map snd (c_vals c) ++ opt_list (z_min (c_zone c)) ++ opt_list (z_max (c_zone c)).
-(** K4: an Int64 of magnitude >= 2^53 meets a Float64 among the column's values, its bounds and the
-    query value, and the comparison is strict *)
-Definition k_zone_round_col (c : column) (o : cmpop) (q : value) : bool :=
-  match o with
-  | OpLt | OpGt => existsb is_big_int (q :: col_values c) && existsb is_float (q :: col_values c)
-  | _ => false
-  end.
-(** K5: [Ne] pruning on a column holding a non-null value of another type than the query value, or a NaN *)
-Definition odd_for_ne (q x : value) : bool :=
-  negb (is_null x) && (negb (vtag x =? vtag q) || match x with VFloat b => f64_is_nan b | _ => false end).
-Definition k_zone_ne_col (c : column) (o : cmpop) (q : value) : bool :=
-  match o with
-  | OpNe => existsb (odd_for_ne q) (map snd (c_vals c))
-  | _ => false
-  end.
 Definition col_witness (c : column) (o : cmpop) (q : value) : bool :=
   existsb (fun x => sat o x q) (map snd (c_vals c)).
 Definition k_zone (backward node : bool) (ops : list op) (key : Z) (o : cmpop) (q : value) (round : bool) : bool :=
@@ -257,19 +229,6 @@ Definition k_zone (backward node : bool) (ops : list op) (key : Z) (o : cmpop) (
   | None => false
   end.
 
-(** C14-K7: a label was added/removed while the statistics were considered fresh; the next
-    refresh does not recompute *)
-Definition op_label_unflagged (s : state) (o : op) : bool :=
-  match o with
-  | AddLabel _ _ | RemoveLabel _ _ =>
-      negb (stats_dirty s) && match snd (step s o) with RBool true => true | _ => false end
-  | _ => false
-  end.
-Fixpoint hist_label_unflagged (s : state) (ops : list op) : bool :=
-  match ops with
-  | [] => false
-  | o :: r => op_label_unflagged s o || hist_label_unflagged (fst (step s o)) r
-  end.
 Definition stats_eqb (a b : stats) : bool :=
   (s_nodes a =? s_nodes b) && (s_edges a =? s_edges b)
   && plist_eqb (psort (s_labels a)) (psort (s_labels b)) && plist_eqb (psort (s_etypes a)) (psort (s_etypes b)).
